@@ -47,6 +47,8 @@ func (fixedKeys) GetClientIDSymmetricKey(id []byte) ([]byte, error) {
 
 var StoreKinds = []string{"mem", "bolt", "mem+enc", "bolt+enc"}
 
+var storeCounter int
+
 func newStore(kind string) (common.TokenStorage, func()) {
 	var st common.TokenStorage
 	cleanup := func() {}
@@ -70,6 +72,16 @@ func newStore(kind string) (common.TokenStorage, func()) {
 		cleanup = func() { db.Close(); os.RemoveAll(dir) }
 	default:
 		panic("harness: unknown store kind " + kind)
+	}
+	// every second store refreshes the last-access time on EVERY read (granularity 0, a legal setting): the
+	// refresh path rewrites the stored record and must not change what later reads return
+	storeCounter++
+	if g, ok := st.(interface {
+		SetAccessTimeGranularity(time.Duration) error
+	}); ok && storeCounter%2 == 1 {
+		if err := g.SetAccessTimeGranularity(0); err != nil {
+			panic("harness: " + err.Error())
+		}
 	}
 	if strings.HasSuffix(kind, "+enc") {
 		enc, err := storage.NewSCellEncryptor(fixedKeys{})
